@@ -18,7 +18,7 @@ MUTANTS = [
     M("lzma2-dict-size", S, "dict_size = (2 | (prop_byte & 1)) << (prop_byte // 2 + 11)", "dict_size = 1 << (prop_byte // 2 + 12)", "C10-CODEC"),
     M("coders-forward-order", S, "for coder_id, properties in reversed(folder.coders):", "for coder_id, properties in folder.coders:", "C10-CODEC"),
     M("empty-member-dropped", A, "        # Check file size before processing\n", "        if not file_data:\n            return\n        # Check file size before processing\n", "C10-STEP"),
-    M("extract-only-when-extension", A, "        for content in extractor(file_bytes, path=full_path):\n            yield content\n", "        if \".\" in basename:\n            for content in extractor(file_bytes, path=full_path):\n                yield content\n", "C10-STEP"),
+    M("extract-only-when-extension", A, "        for content in extractor(file_bytes, path=full_path):\n            # A member name is not a path of the host: label the result from\n            # the name itself, whatever the working directory contains\n            if extractor is not read_archive:\n                content.get_metadata().populate_from_path(full_path, resolve=False)\n            yield content\n", "        if \".\" in basename:\n            for content in extractor(file_bytes, path=full_path):\n                if extractor is not read_archive:\n                    content.get_metadata().populate_from_path(full_path, resolve=False)\n                yield content\n", "C10-STEP"),
     M("uint32-big-endian", S, 'struct.unpack("<I"', 'struct.unpack(">I"', "C10-ENDIAN"),
     M("empty-stream-consumes-size", S, "            if is_dir or empty_streams[i]:\n", "            if is_dir:\n", "C10-FOLDER"),
     M("kemptyfile-skipped-again", S, "                marks = iter(self._read_boolean_vector(sum(empty_streams)))\n                empty_files = [\n                    is_empty and next(marks, False) for is_empty in empty_streams\n                ]\n", "                pass\n", "C10-KIND"),
@@ -26,6 +26,8 @@ MUTANTS = [
     M("empty-files-not-created", S, "        for file_idx in self._empty_file_indexes:\n", "        for file_idx in []:\n", "C10-KIND"),
     M("empty-file-takes-folder-slot", S, "                file_info.is_directory\n                or empty_streams[i]\n                or folder_idx >= len(self._folders)\n", "                file_info.is_directory\n                or folder_idx >= len(self._folders)\n", "C10-FOLDER"),
     __import__("sa.selftest.harness", fromlist=["Variant"]).Variant("7z-members-cut-outside-folder-handler", [(S, "                # A stream that ends early decodes without error: the members\n                # that no longer fit are detected here\n                self._extract_files_from_folder(path, folder_idx, decompressed)\n            except Bad7zFile as e:", "            except Bad7zFile as e:"), (S, "                continue\n\n            extracted_folders += 1\n", "                continue\n\n            self._extract_files_from_folder(path, folder_idx, decompressed)\n            extracted_folders += 1\n")], "C10-SIB"),
+    M("member-label-resolved-on-host", A, "            if extractor is not read_archive:\n                content.get_metadata().populate_from_path(full_path, resolve=False)\n", "", "C10-LABEL"),
+    M("member-dropped-when-unlabelled", A, "            if extractor is not read_archive:\n                content.get_metadata().populate_from_path(full_path, resolve=False)\n            yield content\n", "            if extractor is not read_archive:\n                content.get_metadata().populate_from_path(full_path, resolve=False)\n                yield content\n", "C10-LABEL"),
 ]
 TWINS = [
     T("dict-size-equivalent-form", S, "dict_size = (2 | (prop_byte & 1)) << (prop_byte // 2 + 11)", "dict_size = (2 + (prop_byte & 1)) * (1 << (prop_byte // 2 + 11))"),
